@@ -68,6 +68,17 @@ func main() {
 		n := replayCallsFile(*in, w)
 		w.close()
 		fmt.Printf("CALLS %d EVENTS %d\n", n, w.n)
+	case "replay-small":
+		fs := flag.NewFlagSet("replay-small", flag.ExitOnError)
+		in := fs.String("in", "", "TLC output with HIST lines")
+		out := fs.String("out", "trace.ndjson", "output file")
+		chk := fs.String("chk", "C01", "comma-separated clauses to enforce")
+		fs.Parse(os.Args[2:])
+		w := newWriter(*out)
+		nProbes = 24
+		n := replaySmallFile(rand.New(rand.NewSource(1)), *in, w, strings.Split(*chk, ","))
+		w.close()
+		fmt.Printf("INPUTS %d EVENTS %d\n", n, w.n)
 	case "replay-sched":
 		fs := flag.NewFlagSet("replay-sched", flag.ExitOnError)
 		in := fs.String("in", "", "TLC output with HIST lines (schedules)")
